@@ -466,6 +466,10 @@ def spec_sources(case) -> dict[str, dict[int, int]]:
         "ev": plus([n for n in walk(roots) if n["k"] == "E"]),
         "evsub": plus([n for n in walk(roots) if n["k"] == "E" and n["id"] in esel]),
         "chp": plus([n for n in walk(roots) if n["k"] == "M" and n["kids"] and all(k["k"] == "C" for k in n["kids"])]),
+        # not documented either way for EV chargers, hence also acceptable: an EV-charger meter standing in for
+        # its chargers under the general rule (fallback allowed, ALL of its successors requested)
+        "ev/alt": plus(by_req(roots, "E", {n["id"] for n in walk(roots) if n["k"] == "E"})),
+        "evsub/alt": plus(by_req(roots, "E", set(esel))),
     }
 
 
@@ -484,7 +488,8 @@ def judge_sources(case, obs):
         if "error" in f or (name == "batsub" and not closed):
             continue
         want = sum(c * rd2[i] for i, c in spec[name].items())
-        if f["value2"] != want:
+        alt = sum(c * rd2[i] for i, c in spec.get(name + "/alt", spec[name]).items())
+        if f["value2"] not in (want, alt):
             got = {t["id"]: t["c"] for t in f["terms"] if t["id"] != NONEX}
             out.append({"what": f"{name}: reads other component streams than documented: with each dedicated meter offset from its "
                                 f"successors it evaluates to {f['value2']} W, the documented sources {dict(sorted(spec[name].items()))} "
@@ -492,7 +497,7 @@ def judge_sources(case, obs):
             continue
         # a dedicated meter that stands in for its successors must name exactly them as its fallback
         kids = {n["id"]: sorted(k["id"] for k in n["kids"]) for n in walk(roots) if dedicated(n) and not (len(roots) == 1 and n is roots[0])}
-        if case.get("fb", True) and name not in ("chp",):
+        if case.get("fb", True) and name not in ("chp", "ev", "evsub"):
             for t in f["terms"]:
                 if t["id"] in kids and t["c"] == 1 and name != "consumer" or (name == "consumer" and t["id"] in kids and t["c"] == -1):
                     have = None if t["fb"] is None else sorted(i for i, _ in t["fb"]["terms"])
